@@ -25,7 +25,7 @@ cp "$demo" "$wt/$place"
 clean=$(cd "$wt" && go test -vet=off -count=1 -run "$runpat" ./$pkgdir/ 2>&1 | tail -3)
 echo "clean tree demo: $(echo "$clean" | tail -1)"
 echo "$clean" | grep -q "^ok" || { echo "DEMO-DOES-NOT-PASS-ON-CLEAN-TREE"; echo "$clean"; exit 3; }
-git -C "$wt" apply "$patch" || { echo "PATCH-DOES-NOT-APPLY"; exit 3; }
+git -C "$wt" apply "$patch" 2>/dev/null || git -C "$wt" apply -3 "$patch" || { echo "PATCH-DOES-NOT-APPLY"; exit 3; }
 ( cd "$wt" && go build ./... ) || { echo "MUTANT-DOES-NOT-BUILD"; exit 3; }
 mut=$(cd "$wt" && go test -vet=off -count=1 -run "$runpat" ./$pkgdir/ 2>&1 | tail -5)
 echo "mutated tree demo: $(echo "$mut" | tail -1)"
